@@ -51,6 +51,12 @@ def run(tier):
                  ["--memory-mode", "Shared_Sram", "--system-config", "Ethos_U65_Embedded", "--config", compiles.CONFIG_INI]][rep % 3]
         jobs.append({"family": "one_channel_tail", "seed": "c02o-%d-%d" % (vlib.seed(), rep),
                      "args": ["--accelerator-config", "ethos-u65-512"] + extra, "capture": True})
+    # the smallest legal arena cache (0 bytes: nothing may be placed in fast scratch) and other small ones, in the Dedicated-SRAM modes
+    for rep in range(4 if tier == "quick" else 60):
+        size = ["0", "0", "1024", "16"][rep % 4]
+        mode = [[], ["--config", compiles.CONFIG_INI, "--system-config", "Ethos_U65_High_End", "--memory-mode", "Dedicated_Sram"]][rep % 2]
+        jobs.append({"family": ["conv_chain", "weights_heavy", "diamond", "single:conv"][rep % 4], "seed": "c02z-%d-%d" % (vlib.seed(), rep),
+                     "args": ["--accelerator-config", ["ethos-u65-256", "ethos-u65-512"][(rep // 2) % 2]] + mode + ["--arena-cache-size", size], "capture": True})
     # a RESHAPE that has to be a copy (its input has other consumers), channel counts off the 16-channel brick: the copy's
     # byte count must be that of the destination, whatever formats the neighbours prefer; destination at the top of the arena
     for rep in range(9 if tier == "quick" else 180):
